@@ -33,6 +33,12 @@ CfgMixed   == [maxValidity |-> 3000, transportFailure |-> 2, miscError |-> 4,
                maxNxdomain |-> 60, maxNodata |-> 120, maxDelegation |-> 240,
                cacheTruncated |-> TRUE]
 
+(* max_validity smaller than every class bound (values within the limits  *)
+(* Config's setters clamp to)                                              *)
+CfgTight   == [maxValidity |-> 100, transportFailure |-> 300, miscError |-> 300,
+               maxNxdomain |-> 3600, maxNodata |-> 3600, maxDelegation |-> 1000000,
+               cacheTruncated |-> TRUE]
+CfgsMaxVal == {CfgDefault, CfgTight}
 CfgsDefault == {CfgDefault}
 CfgsAll == {CfgDefault, CfgMin, CfgMixed}
 CfgsCorners == {CfgMin, CfgMixed}
@@ -41,6 +47,7 @@ TV_All   == {<<a, b, c>> : a \in {0, 1, 5, 3600}, b \in {0, 1, 5, 3600}, c \in {
 TV_Quick == {<<3600, 3600, 3600>>, <<5, 3600, 3600>>, <<3600, 5, 1>>, <<3600, 3600, 0>>}
 TV_Flags == {<<5, 3600, 1>>, <<5, 5, 5>>}
 TV_One   == {<<5, 5, 5>>}
+TV_Huge  == {<<2000000, 2000000, 2000000>>}     \* larger than every bound
 TV_Long  == {<<3600, 3600, 3600>>}
 
 AllClasses == {"answer", "cname", "nodata", "nxdomain", "delegation", "weird",
@@ -49,12 +56,18 @@ AllClasses == {"answer", "cname", "nodata", "nxdomain", "delegation", "weird",
                \* the class is decided by *whether* a SOA is there, not by
                \* which of SOA / NS comes first
                "nodata_soa_ns", "nodata_ns_soa", "nx_ns_soa"}
+NoErrClasses == AllClasses \ {"err"}
+ErrOnly == {"err"}
+CfgsTight == {CfgTight}
+TK_Err == {100000, 101000, 300000, 301000}
 FlagClasses == {"answer", "nodata", "err"}
 
 (* 0.5 s, 1 s, 4 s, 5.5 s (just past TTL 5), 6 s, 3601 s *)
 TK_Quick == {500, 1000, 4000, 5500, 3601000}
 (* around the 30 s / 60 s / 120 s / 240 s bounds *)
 TK_Bounds == {500, 1000, 4000, 30000, 60000, 120000, 240000}
+(* just below / above max_validity of CfgTight (100 s) and CfgDefault (7 d) *)
+TK_MaxVal == {100000, 101000, 604800000, 604801000}
 TK_Flags == {500, 4000, 5500}
 TK_Sim == TK_Quick \cup TK_Bounds \cup {0, 1, 999, 1001, 5000, 5001, 61000}
 
@@ -83,10 +96,12 @@ Mk(q, cls, tv, adb) ==
       Sig(o, ttl, id) == IF q.do THEN <<RR(o, "RRSIG", ttl, id)>> ELSE <<>>
       Nsec(o, ttl)    == IF q.do THEN <<RR(o, "NSEC", ttl, 3), RR(o, "RRSIG", ttl, 4)>> ELSE <<>>
       Opt == IF q.do THEN <<[o |-> ".", t |-> "OPT", c |-> "-", ttl |-> 32768, rd |-> 0]>> ELSE <<>>
+      \* DO answers carry DNSSEC records in all three sections
+      Glue == <<RR("ns1.example", "A", tv[3], 9)>> \o Sig("ns1.example", tv[3], 10)
       Ans == <<RR(q.name, q.qtype, tv[1], 1)>> \o Sig(q.name, tv[3], 1)
       Full(tc) == [hdr |-> H("NOERROR", TRUE, tc), qd |-> qd, an |-> Ans,
                    ns |-> <<RR("example", "NS", tv[2], 1)>> \o Sig("example", tv[2], 2),
-                   ar |-> <<RR("ns1.example", "A", tv[3], 9)>> \o Opt]
+                   ar |-> Glue \o Opt]
   IN CASE cls = "answer" -> Full(FALSE)
        [] cls = "tc" -> Full(TRUE)
        [] cls = "cname" ->
@@ -112,7 +127,7 @@ Mk(q, cls, tv, adb) ==
                 qd |-> qd, an |-> <<>>,
                 ns |-> (IF cls = "nodata_soa_ns" THEN soa \o nsr ELSE nsr \o soa)
                        \o Nsec(q.name, tv[3]),
-                ar |-> <<RR("ns1.example", "A", tv[3], 9)>> \o Opt]
+                ar |-> Glue \o Opt]
        [] cls = "nxdomain" ->
             [hdr |-> H("NXDOMAIN", TRUE, FALSE), qd |-> qd, an |-> <<>>,
              ns |-> <<RR("example", "SOA", tv[2], 7)>> \o Sig("example", tv[2], 8)
@@ -121,7 +136,7 @@ Mk(q, cls, tv, adb) ==
        [] cls = "delegation" ->
             [hdr |-> H("NOERROR", FALSE, FALSE), qd |-> qd, an |-> <<>>,
              ns |-> <<RR(q.name, "NS", tv[2], 2)>> \o Nsec(q.name, tv[2]),
-             ar |-> <<RR("ns1.example", "A", tv[3], 9)>> \o Opt]
+             ar |-> Glue \o Opt]
        [] cls = "weird" ->
             [hdr |-> H("NOERROR", FALSE, FALSE), qd |-> qd, an |-> <<>>, ns |-> <<>>,
              ar |-> Opt]
